@@ -11,7 +11,7 @@ from fractions import Fraction
 import numpy as np
 
 LEVEL = "other"
-REPO = "/repo"
+REPO = os.environ.get("VERIF_REPO", "/repo")
 
 
 # ----------------------------------------------------------------------------- attribution of the duplicate shortcut
